@@ -37,6 +37,7 @@ class CallGraph:
         for f in p.all_funcs():
             self._scan(f)
         self._resolve_param_calls()
+        self._resolve_param_dispatch()
         for f in p.all_funcs():
             es: set[Func] = set(self.refs.get(f, ()))
             for cs in self.sites.get(f, []):
@@ -256,6 +257,49 @@ class CallGraph:
         cs.kind = "unknown"
         cs.detail = U(fn)
         return cs
+
+    def _resolve_param_dispatch(self) -> None:
+        """`for rule in rules: rule(state, ...)` where `rules` is a *parameter* holding a compiled chain: the chain is
+        whatever the callers pass (`self.ruler.getRules("")` or a local bound to it)."""
+        for f, sites in self.sites.items():
+            params = [a.arg for a in f.node.args.posonlyargs + f.node.args.args]
+            for cs in sites:
+                if cs.kind.startswith("dispatch:") or cs.callees:
+                    continue
+                fn = cs.node.func
+                src = None
+                if isinstance(fn, ast.Name):
+                    src = self._iter_source(f, fn.id)
+                elif isinstance(fn, ast.Subscript):
+                    src = fn.value
+                if not (isinstance(src, ast.Name) and src.id in params):
+                    continue
+                found: set[tuple[str, str]] = set()
+                ok = True
+                any_site = False
+                for g, gsites in self.sites.items():
+                    for gs in gsites:
+                        if f not in gs.callees:
+                            continue
+                        any_site = True
+                        idx = params.index(src.id)
+                        off = 1 if (f.cls and f.outer is None and "staticmethod" not in f.decorators and isinstance(gs.node.func, ast.Attribute)) else 0
+                        arg = None
+                        if 0 <= idx - off < len(gs.node.args):
+                            arg = gs.node.args[idx - off]
+                        for k in gs.node.keywords:
+                            if k.arg == src.id:
+                                arg = k.value
+                        rc = self.ruler_chain_of(g, arg) if arg is not None else None
+                        if rc is None:
+                            ok = False
+                        else:
+                            found.add(rc)
+                if any_site and ok and len(found) == 1:
+                    chain, alt = next(iter(found))
+                    regs = self.reg.rules[chain] if alt == "*" else self.reg.chain_members(chain, alt)
+                    cs.callees = [r.func for r in regs]
+                    cs.kind = f"dispatch:{chain}:{alt}"
 
     def _resolve_param_calls(self) -> None:
         """A call through a parameter (`fn(label)`) resolves to the function values passed at the call sites of the
